@@ -157,7 +157,7 @@ func RunVerifyCase(cs Case, cfg VerifyCfg) Result {
 		}
 	}
 	sub := 0
-	for _, v := range variants {
+	for vi, v := range variants {
 		var cSet, cWall *gen.Concrete
 		for _, o := range cs.Runs {
 			var c *gen.Concrete
@@ -179,7 +179,7 @@ func RunVerifyCase(cs Case, cfg VerifyCfg) Result {
 			if err := gen.SelfCheck(c); err != nil {
 				panic(fmt.Sprintf("GENERATOR SELF-CHECK FAILED case %d world %v: %v", cs.ID, cs.W, err))
 			}
-			extra := Event{}
+			extra := Event{"real": vi*2 + map[bool]int{true: 1, false: 0}[o["now"] == "unset"]} // one realisation = one build of the world
 			if w.Get("mut") != "none" {
 				extra["bit"] = v.mutBit
 			}
